@@ -13,8 +13,28 @@ cd $W
 echo "== apply"; git apply $S/patch.diff && echo applied || { echo APPLY-FAILED; }
 echo "== build"; go build ./... && echo build-ok
 echo "== existing tests: $@"
-unshare -n sh -c 'ip link set lo up; exec "$0" "$@"' go test -count=1 -timeout 25m "$@" 2>&1 | tail -15
-echo "existing-rc=${PIPESTATUS[0]}"
+unshare -n sh -c 'ip link set lo up; exec "$0" "$@"' go test -count=1 -timeout 25m "$@" > $W/.existing.log 2>&1
+erc=$?
+tail -15 $W/.existing.log
+if [ $erc -ne 0 ]; then
+  # some tests of ./server fail intermittently under load on the unchanged tree too (and a failure there
+  # panics the test binary, which hides the rest of the suite): run the rest of the suite without them and
+  # the failed ones on their own, up to three times each
+  failed=$(grep -E '^--- FAIL: ' $W/.existing.log | awk '{print $3}' | sort -u | paste -sd'|')
+  if [ -n "$failed" ]; then
+    echo "== retry: rest of the suite without ($failed), then those alone"
+    unshare -n sh -c 'ip link set lo up; exec "$0" "$@"' go test -count=1 -timeout 25m -skip "^($failed)\$" "$@" 2>&1 | tail -8
+    r1=${PIPESTATUS[0]}
+    r2=1
+    for attempt in 1 2 3; do
+      unshare -n sh -c 'ip link set lo up; exec "$0" "$@"' go test -count=1 -timeout 10m -run "^($failed)\$" "$@" 2>&1 | tail -5
+      r2=${PIPESTATUS[0]}
+      [ $r2 -eq 0 ] && break
+    done
+    if [ $r1 -eq 0 ] && [ $r2 -eq 0 ]; then erc=0; echo "existing-retried=$failed"; fi
+  fi
+fi
+echo "existing-rc=$erc"
 cp $S/demo_test.go $demopkg/zz_seed_demo_test.go
 echo "== demo WITH change (expect FAIL)"
 unshare -n sh -c 'ip link set lo up; exec "$0" "$@"' go test -count=1 -run "$rx" ./$demopkg 2>&1 | tail -15
@@ -25,4 +45,4 @@ unshare -n sh -c 'ip link set lo up; exec "$0" "$@"' go test -count=1 -run "$rx"
 echo "demo-without-rc=${PIPESTATUS[0]}"
 } > $LOG 2>&1
 cd /; git -C /repo worktree remove --force $W
-grep -E "applied|build-ok|existing-rc|demo-with-rc|demo-without-rc" $LOG | tr '\n' ' '; echo
+grep -E "^applied|^build-ok|^existing-rc|^existing-retried|^demo-with-rc|^demo-without-rc" $LOG | tr '\n' ' '; echo
